@@ -3,7 +3,7 @@ import HioModel.Store.Model
 # Durq / Dusq / Hold.inject — executable model (`hio.base.hier.durqing`, `dusqing`, `holding`)
 
 A value is represented by its serialisation (`DomSuberBase._ser`, bytes).  Python's `==`/`hash` on the
-deserialised values is the parameter `cls : Bytes → Nat` (equal class ⇔ `==`): the in-memory
+deserialised values is the parameter `cls : Bytes → α` (equal class ⇔ `==`; the driver uses `α = Nat`): the in-memory
 `OrderedSet` of a Dusq dedups by `cls`, the durable IoSet sub-db by the bytes themselves (F38 is exactly
 a non-injective `cls`).  A queue lives in a `Hold` over an opened `Subery`, so `.durable` is True
 throughout; `reopen` closes the environment, opens it again (the sub-db content persists), and injects a
@@ -41,15 +41,15 @@ inductive QRes where
 deriving DecidableEq, Repr
 
 /-- `OrderedSet.add`: append unless an `==` element is present -/
-def osetAdd (cls : Bytes → Nat) (m : List Bytes) (v : Bytes) : List Bytes :=
+def osetAdd {α : Type} [DecidableEq α] (cls : Bytes → α) (m : List Bytes) (v : Bytes) : List Bytes :=
   if m.any (fun x => cls x == cls v) then m else m ++ [v]
 
-def osetUpdate (cls : Bytes → Nat) : List Bytes → List Bytes → List Bytes
+def osetUpdate {α : Type} [DecidableEq α] (cls : Bytes → α) : List Bytes → List Bytes → List Bytes
   | m, [] => m
   | m, v :: vs => osetUpdate cls (osetAdd cls m v) vs
 
 /-- `OrderedSet.remove`: drop the `==` element (`none` = KeyError) -/
-def osetRemove (cls : Bytes → Nat) : List Bytes → Bytes → Option (List Bytes)
+def osetRemove {α : Type} [DecidableEq α] (cls : Bytes → α) : List Bytes → Bytes → Option (List Bytes)
   | [], _ => none
   | x :: xs, v => if cls x == cls v then some xs else (osetRemove cls xs v).map (x :: ·)
 
@@ -64,7 +64,7 @@ def pullDurable (db : Db) (k : Bytes) (hit : Option Bytes) (emptive : Bool) : Db
       else if emptive then (db', .val none) else (db', .raise .indexError)
     | some v => if popped.isNone then (db', .raise .hierError) else (db', .val (some v))
 
-def qstep (cls : Bytes → Nat) (kind : QKind) (k : Bytes) (db : Db) (q : Q) : QOp → Db × Q × QRes
+def qstep {α : Type} [DecidableEq α] (cls : Bytes → α) (kind : QKind) (k : Bytes) (db : Db) (q : Q) : QOp → Db × Q × QRes
   | .push v => match kind with
     | .durq =>
       let q' : Q := ⟨q.mem ++ [v], false⟩
@@ -119,7 +119,7 @@ def qstep (cls : Bytes → Nat) (kind : QKind) (k : Bytes) (db : Db) (q : Q) : Q
     | .dusq => (db, q, .unsupported)
 
 /-- `Hold.inject` of a fresh `Durq()` / `Dusq()` at key `k`: `sync()` with `stale = True` -/
-def inject (cls : Bytes → Nat) (kind : QKind) (k : Bytes) (db : Db) : Db × Except Exn Q :=
+def inject {α : Type} [DecidableEq α] (cls : Bytes → α) (kind : QKind) (k : Bytes) (db : Db) : Db × Except Exn Q :=
   match cntIoVals db k with
   | .error x => (db, .error x)
   | .ok n =>
@@ -139,7 +139,7 @@ inductive HOp where
   | reopen
 deriving Repr
 
-def hstep (cls : Bytes → Nat) (kind : QKind) (k : Bytes) (db : Db) (q : Q) : HOp → Db × Q × QRes
+def hstep {α : Type} [DecidableEq α] (cls : Bytes → α) (kind : QKind) (k : Bytes) (db : Db) (q : Q) : HOp → Db × Q × QRes
   | .op o => qstep cls kind k db q o
   | .reopen => match inject cls kind k db with
     | (db', .ok q') => (db', q', .bool true)
@@ -149,7 +149,7 @@ def hstep (cls : Bytes → Nat) (kind : QKind) (k : Bytes) (db : Db) (q : Q) : H
 def durable (db : Db) (k : Bytes) : Except Exn (List Bytes) := getIoVals db k
 
 /-- run a history from a state; per op: result, in-memory content, durable content -/
-def hrun (cls : Bytes → Nat) (kind : QKind) (k : Bytes) : Db → Q → List HOp → List (QRes × List Bytes × Except Exn (List Bytes))
+def hrun {α : Type} [DecidableEq α] (cls : Bytes → α) (kind : QKind) (k : Bytes) : Db → Q → List HOp → List (QRes × List Bytes × Except Exn (List Bytes))
   | _, _, [] => []
   | db, q, o :: os =>
     let (db', q', r) := hstep cls kind k db q o
